@@ -51,6 +51,7 @@ type Step struct {
 	Max      int      `json:"max,omitempty"`
 	Quiet    bool     `json:"quiet,omitempty"`
 	Free     bool     `json:"free,omitempty"`
+	Only     string   `json:"only,omitempty"`
 	PauseUs  int      `json:"pause_us,omitempty"`
 }
 
